@@ -128,11 +128,12 @@ CHECKS = {
    note="Trusted: Lean kernel + propext/Classical.choice/Quot.sound; the hand-written port of sheens match.go (validated only by the differential run); Go map iteration order is sampled (3 calls per case), not enumerated.",
    technique="Lean 4 proof (structural induction over the nested JSON type) over a hand-written model + differential correspondence check", ref="5 (C05)"),
  "C20": dict(
-   text="Lean 4 theorems (Props/C20.lean, 24, audited each run) about an executable model of OutboundBreaker's counts array, concurrent Do callers, Throttle.Submit bookkeeping and the Location capacity gate; "
+   text="Lean 4 theorems (Props/C20.lean, audited each run) about an executable model of OutboundBreaker's counts array, concurrent Do callers, Throttle.Submit bookkeeping and the Location capacity gate; "
         "the comparisons, offsets, guards and lock structure of the model are regenerated from core/breaker.go and core/location.go on every run; the model is compared with the real code by white-box runs of "
         "slide()/Do() with exact clock readings, forced Throttle schedules, real-goroutine stress, capacity histories, and wall-clock scripts.",
-   note="Partial for the timing clauses: the recovery clause is false on the unchanged tree (negative theorems plus replayed findings; only a two-window recovery under slow polling is proved); the window bound is over "
-        "20*floor(interval/20) ns. Trusted: extractor (go/ast), monotone clock, sync.Mutex mutual exclusion, Go runtime. Data races are reached only by the -race search when the tie breaks.",
+   note="The rate bound is exact over 20*floor(interval/20) ns for any sequence of Do calls and Status/Summary polls; recovery after one window is proved for every polling pattern (breaker_recovers, breaker_recovery_bound, "
+        "graded bound with its trade-off witness) since the repair of slide() in /repo; construction guard and Throttle.pending exact under Disable toggles likewise. Remaining findings: SimpleBreaker disabled/open, capacity "
+        "check-then-add race. Timing on the wall clock is observed, not proved. Trusted: extractor (go/ast), monotone clock, sync.Mutex mutual exclusion, Go runtime. Data races are reached only by the -race search when the tie breaks.",
    technique="Lean 4 proof (refinement to a ghost model; induction over call sequences and schedules) over a model built on definitions regenerated from the Go source + differential correspondence check", ref="5 (C20)"),
 }
 NOT_YET = {}
